@@ -91,6 +91,18 @@ check("C05", "exploration",
       "choice-tree DFS with deviation bound, differential oracle between the two front ends of the real code",
       "DESIGN.md §3/C05")
 
+check("C07", "exploration",
+      "One name declared at any subset of nine scope levels (global, template parameter/local, function parameter/local, "
+      "nested block, iteration/quantifier/select binder; 64+6 subsets quick, all 288 admissible subsets thorough) with "
+      "pairwise distinguishable types; every model carries 23 use sites (before/after each declaration, inside/outside each "
+      "scope, labels with and without select binder, invariant, another template, system section, a later declaration) and 4 "
+      "queries (v, P.v, P.w with argument substitution, T2.v). The declaration each use is bound to is read from the real "
+      "document and compared with a reference lexical resolver; unknown uses must be diagnosed, one diagnostic each.",
+      "The bound declaration is identified through the upper bound of the symbol's declared range. Parameter+local of the "
+      "same name share a frame (duplicate definition) and are excluded.",
+      "bounded-exhaustive enumeration of declaration subsets x use sites on the real parser against a reference scope resolver",
+      "DESIGN.md §3/C07")
+
 check("C08", "exploration",
       "A C++ invariant checker (uid<->object identity for variables/locations/branchpoints/functions/templates/instances/"
       "processes, exactly one source and target per edge within the own template, dense numbering, unbound-first parameter "
